@@ -30,7 +30,7 @@ def rebuild(st):
 
 OBSERVED = ["ptm1", "ptm2", "ptm1", "ptm2", "dpspr_zero", "hs", "hrms", "tm01", "tm02", "dm", "dspr", "dp", "dpm", "tp", "oned", "momf", "uss", "crsd",
             "stats", "stats_limits", "stats_limits", "smooth", "interp", "rotate", "ptm3", "ptm4", "to_energy", "swe", "hmax", "split", "reconstruct",
-            "ptm3", "to_swan", "to_octopus", "to_json"]
+            "ptm3", "to_swan", "to_octopus", "to_json", "to_ww3", "to_netcdf"]
 
 
 def observe(obj, obs):
@@ -82,6 +82,23 @@ def observe(obj, obs):
                 import json
                 raw_ = json.dumps(json.loads(raw_.decode()), sort_keys=True).encode()
             r = xr.DataArray(np.frombuffer(raw_, dtype=np.uint8).copy(), dims=["byte"])
+        finally:
+            shutil.rmtree(d_, ignore_errors=True)
+    elif name in ("to_ww3", "to_netcdf"):
+        # NetCDF writers: the result is what the file holds (variables, values, attributes), read back with plain xarray
+        import os
+        import shutil
+        import tempfile
+        ds_ = obj if isinstance(obj, xr.Dataset) else obj.to_dataset(name="efth")
+        d_ = tempfile.mkdtemp(prefix="vf-c18-")
+        try:
+            p_ = os.path.join(d_, "out.nc")
+            if name == "to_ww3":
+                ds_.spec.to_ww3(p_)
+            else:
+                ds_.spec.to_netcdf(p_, ncformat="NETCDF3_64BIT", compress=False, packed=False)
+            with xr.open_dataset(p_, decode_times=False) as fh_:
+                r = fh_.load()
         finally:
             shutil.rmtree(d_, ignore_errors=True)
     elif name in ("ptm1", "ptm2"):
